@@ -487,6 +487,24 @@ def module_new(ctx):
         okb = bool(L) and sty == "std::slice::Iter<'_, grammar::Backend>" and not cycle_without(f, L[1], L[0], {c['block']}) and key_ok and lit_ok and strip(strip(src)[2][0])[0] == 'arg'
     ctx.ob(['C14'], 'R-ITER', 'MN|backends-grouped-in-order', okb,
            'every backend block is appended, in source order, to the list of its own backend name, prologue as prologue and epilogue as epilogue: %s' % det, where)
+    # impl blocks: stored exactly as parsed (no attribute or function is added, dropped or rewritten on the way to function::build)
+    vals = []
+    for g in [f] + P.closures_of(f):
+        for x in g.exits():
+            e_ = x['expr']
+            if e_[0] == 'tuple' and len(e_[1]) == 2 and 'FunctionBlock' in g.raw.get('output', g.locals[0]['ty'] if g.locals else ''):
+                vals.append((g, e_[1][1]))
+        for c in g.calls(lambda r: r['path'] and re.search(MAPM('insert'), r['path']) and 'FunctionBlock' in (r['callee'].get('rfull') or '')):
+            vals.append((g, g.expr_of_operand(c['term']['args'][2])))
+    oki = bool(vals)
+    deti = []
+    for g, v in vals:
+        okc, src_ = unmodified_clone(g, v, 'grammar::FunctionBlock')
+        elem_ = okc and (strip(src_)[0] == 'arg' or any(isinstance(y, tuple) and y[0] == 'payload' and y[2] == 'Some' and is_call(strip(y[1]), 'Iterator::next') for y in walk(src_)))
+        oki = oki and bool(elem_)
+        deti.append('%s: %s' % (short(g.id), 'clone of the element' if elem_ else 'not an unmodified clone: ' + show(v)[:60]))
+    ctx.ob(['C05', 'C14', 'C18'], 'R-SLP', 'MN|impl-blocks-stored-unchanged', oki,
+           'every impl block is stored as an unmodified clone of the parsed block (nothing is added to or removed from its functions and attributes): %s' % deti, where)
     okd = any(is_call(y, 'Attributes::doc') and strip(y[2][0])[0] == 'field' and strip(y[2][0])[2] == 'attributes' for y in walk(m['doc']))
     md = [g for g in P.fns.values() if g.id.endswith('module::Module::doc')]
     okd2 = bool(md) and len(md[0].exits()) == 1 and any(isinstance(y, tuple) and y[0] == 'field' and y[2] == 'doc' for y in walk(md[0].exits()[0]['expr']))
